@@ -321,8 +321,11 @@ shared_ptr<IDataArray> BlockHDF5::createDataArray(const std::string &name,
                                                   nix::DataType data_type,
                                                   const NDSize &shape,
                                                   const Compression &compression) {
-    // reject unsupported element types before anything is created in the file
+    // reject unsupported element types and shapes before anything is created in the file
     data_type_to_h5_filetype(data_type);
+    if (shape.size() == 0) {
+        throw InvalidRank("Cannot create a DataArray with a 0-dimensional shape");
+    }
 
     string id = util::createId();
     boost::optional<H5Group> g = data_array_group(true);
